@@ -7,6 +7,7 @@ export GOFLAGS=-mod=mod GOPROXY=off GOSUMDB=off GOTOOLCHAIN=local CGO_ENABLED=0
 mkdir -p build/ocaml coq/Gen evidence replays
 (cd go/gen && go build -o ../../build/gen .)
 ./build/gen "${VERIF_REPO:-/repo}" coq/Gen
+python3 tools/mkcoqproject.py
 (cd coq && coq_makefile -f _CoqProject -o Makefile && timeout 7200 make -j16 >../build/coq-build.log 2>&1) || { tail -30 build/coq-build.log; exit 1; }
 cp "${VERIF_REPO:-/repo}/go.sum" go/harness/go.sum
 (cd go/harness && go build -tags verif -o ../../build/harness .)
